@@ -161,7 +161,10 @@ def lifecycle(op):
 
 
 def is_cin(op):
-    return op.get("cl") == "clone_if_necessary"
+    """Effective cloning policy: the registration's, else the annotation's, else never-clone."""
+    if op.get("cl") is not None:
+        return op["cl"] == "clone_if_necessary"
+    return bool(cat(op["c"]).get("annotated_cin")) if op.get("k") == "ctor" else False
 
 
 # --------------------------------------------------------------------------------------------------
